@@ -40,6 +40,9 @@ type derivation struct {
 	Paths         []string `json:"paths,omitempty"`
 	Excludes      []string `json:"excludes,omitempty"`
 	RoundTrip     bool     `json:"round_trip,omitempty"` // the built image goes through its wire form before it is filtered
+	// Fixture: "" = the lint fixture / breaking pair; "groups" = the file-group fixture of part N (packages, directories
+	// and a package import cycle spread over several files)
+	Fixture string `json:"fixture,omitempty"`
 }
 
 func (d derivation) name() string {
@@ -49,6 +52,9 @@ func (d derivation) name() string {
 		if d.RoundTrip {
 			n += "+wire"
 		}
+	}
+	if d.Fixture != "" {
+		n = d.Fixture + "/" + n
 	}
 	return n + fmt.Sprintf(":path=%v,exclude=%v", d.Paths, d.Excludes)
 }
@@ -63,6 +69,10 @@ func (d derivation) shape() string {
 		s = "path-only"
 	case len(d.Excludes) > 0:
 		s = "exclude-path-only"
+	}
+	if d.Fixture == "groups" {
+		// part N: the reported file belongs to a group of files (package, directory, import edge group) a rule looks at as a whole
+		s += "/file-group-spread-over-target-and-import-files"
 	}
 	return d.Route + "/" + s
 }
@@ -257,10 +267,19 @@ func derivations(kind string, quick bool) []derivation {
 
 // derivedScene builds the scene(s) of a derivation. ok is false when the derivation does not apply.
 func (e *env) derivedLintScene(d derivation, versions []string) (*scene, fileSet, bool) {
+	return e.derivedLintSceneOnly(d, versions, nil)
+}
+
+// derivedLintSceneOnly: singletons restricted to the rules in only (nil = all).
+func (e *env) derivedLintSceneOnly(d derivation, versions []string, only stringSet) (*scene, fileSet, bool) {
 	spans := map[string]span{}
 	sources := map[string]string{}
-	for _, f := range lintFixture() {
-		sources[f.Path] = f.render(nil, spans)
+	if d.Fixture == "groups" {
+		sources = groupFixture()
+	} else {
+		for _, f := range lintFixture() {
+			sources[f.Path] = f.render(nil, spans)
+		}
 	}
 	model := d.modelFiles(sources)
 	image, err := e.derive(d, sources)
@@ -269,7 +288,7 @@ func (e *env) derivedLintScene(d derivation, versions []string) (*scene, fileSet
 		return nil, nil, false
 	}
 	sc := &scene{Kind: "lint", Image: image, Src: &source{Spans: spans, Imports: model.flags()}, Sources: sources, Derivation: &d}
-	if !e.singletons(sc, versions, nil) {
+	if !e.singletons(sc, versions, only) {
 		return nil, nil, false
 	}
 	return sc, model, true
